@@ -59,12 +59,19 @@ def run_export(case):
                 amplitudes=[float(x) for x in m.amplitudes], has_features=m.sparse_features is not None,
                 sample_rate=float(m.sample_rate), n_closest=int(m.n_closest_channels))
             out = d / 'alf'
-            same_dir_refused = None
-            try:
-                EphysAlfCreator(m).convert(src)
-                same_dir_refused = False
-            except IOError:
-                same_dir_refused = True
+            # the source directory under several spellings: canonical, through '..', through a symlink
+            link = d / 'link_to_src'
+            link.symlink_to(src, target_is_directory=True)
+            same_dir_refused = True
+            for spelling in (src, src / '..' / src.name, link, str(src)):
+                try:
+                    EphysAlfCreator(m).convert(spelling)
+                    same_dir_refused = False
+                except IOError:
+                    pass
+                except Exception:      # anything else means the guard did not stop the conversion
+                    same_dir_refused = False
+            link.unlink()
             res['same_dir_refused'] = same_dir_refused
             res['src_after_refusal_unchanged'] = _hash_dir(src) == before
             np.random.seed(case.get('rs', 0))
